@@ -16,6 +16,14 @@
 //! the local child, and with a contact naming another child's handle (`mallory`, finding F12a, fixed by /repo 1a6ebc01:
 //! must be refused), the same with the embedded TA (the proxy aggregate) as local parent, and the publication shortcut: honest, the CA `pz` named like a publisher registered with a remote ID key
 //! (finding F12b, fixed by /repo 346cb17c: must be refused), and across an identity update of a local CA.
+//! (A-upd) `ca_child_update` in every shape - ID certificate only, resources only, both in ONE request, both with a resource part
+//! that is refused, no-op, unknown child - on remote children and on a CA of this instance, each followed by list requests signed
+//! with the key registered before and with the key of the new ID certificate (case `CUpdChild`: the oracle decides from the request
+//! which key has to be registered afterwards); the same update addressed to the trust anchor (which has no such command).
+//! (B-add / B-near) every `create_publisher` is a case (`CAddPub`: key, jail = the directory named like the handle, nothing else
+//! touched); publishers called tango, tata, ta2, taa, TA, t, alice, alice2 reach into a sibling's directory, into the directory
+//! whose name merely starts with their own handle, and into the base, in every publisher state. Handles and URI segments are
+//! interned in one numbering ("ta" = 1), so that the oracle derives the jail from the handle and not from the server's answer.
 //!
 //! Per message one Coq `case` (ident/IdentCheck.v): abstracted parent / repository state before and
 //! after (children with registered ID key, entitlement, used keys, suspension, last status entry;
@@ -65,7 +73,6 @@ struct Interner {
     certkeys: BTreeMap<String, u64>, // child certificate keys (from 1)
     handles: BTreeMap<String, u64>,  // from 1
     rcns: BTreeMap<String, u64>,
-    segs: BTreeMap<String, u64>,
     contents: BTreeMap<String, u64>, // base64 / hash hex -> content id
 }
 fn intern(m: &mut BTreeMap<String, u64>, s: &str, base: u64) -> u64 {
@@ -77,7 +84,9 @@ impl Interner {
     fn certkey(&mut self, kid: &str) -> u64 { intern(&mut self.certkeys, &kid.to_uppercase(), 1) }
     fn handle(&mut self, h: &str) -> u64 { intern(&mut self.handles, h, 1) }
     fn rcn(&mut self, s: &str) -> u64 { match s.parse::<u64>() { Ok(n) if n < 1000 => n, _ => intern(&mut self.rcns, s, 1000) } }
-    fn seg(&mut self, s: &str) -> u64 { intern(&mut self.segs, s, 1) }
+    /// URI path segments and handles are plain names in ONE numbering ("ta" is interned first: Coq `ta_name` = 1), so
+    /// that the jail a handle determines (`jail_of`, Updown.v) can be written down without asking the server.
+    fn seg(&mut self, s: &str) -> u64 { self.handle(s) }
     /// content ids are keyed by the SHA-256 of the content so that hashes and contents share numbers
     fn content_of_hash(&mut self, hash_hex: &str) -> u64 { intern(&mut self.contents, &hash_hex.to_lowercase(), 1) }
 }
@@ -618,6 +627,71 @@ fn case8181(w: &mut World, out: &mut Out, pre: &ARepo, url_handle: &str, bytes: 
     sent.post
 }
 
+/// One `ca_child_update` on the parent `par` (a new ID certificate, a new resource set, or both in ONE request) followed
+/// by signed list requests of that child (`probes`: label, signing key). Writes one `CUpdChild` case.
+#[allow(clippy::too_many_arguments)]
+fn update_case(w: &mut World, out: &mut Out, ua: &mut u64, child: &str, id: Option<(&IdKey, &IdCert)>, res: Option<u32>,
+               probes: &[(String, IdKey)], stream: &str, what: &str) -> bool {
+    let pre = observe_parent(w);
+    let req = UpdateChildRequest { id_cert: id.map(|(_, c)| c.clone()), resources: res.map(atoms_to_resources), suspend: None, resource_class_name_mapping: None };
+    let r = w.sys.krill.ca_manager().ca_child_update(&ca_handle(PAR), child_handle(child), req, &w.sys.actor, &w.sys.krill);
+    let ok = r.is_ok();
+    let mid = observe_parent(w);
+    let cn = w.it.handle(child);
+    let pn = w.it.handle(PAR);
+    let reg = |p: &AParent| p.children.iter().find(|(h, _)| *h == cn).map(|(_, c)| c.id);
+    let ent = |p: &AParent| p.children.iter().find(|(h, _)| *h == cn).map(|(_, c)| c.ent);
+    let jobs: Vec<(provisioning::Message, IdKey)> = probes.iter().map(|(_, k)| (provisioning::Message::list(child_handle(child).convert(), parent_handle(PAR).convert()), k.clone())).collect();
+    let signed = par_sign6492(w, &jobs);
+    let mut probe_terms = Vec::new();
+    let mut probe_recs = Vec::new();
+    let mut cur = mid.clone();
+    for ((label, k), bytes) in probes.iter().zip(signed) {
+        let Some(bytes) = bytes else { probe_recs.push(json!({"signed_by": label, "key": k.n, "outcome": "could-not-sign"})); continue };
+        let this_ua = *ua; *ua += 1;
+        let desc = format!("{child} -> {PAR} list signed-by {label} after child update ({what})");
+        let sent = send6492(w, &bytes, this_ua, out, &desc);
+        if sent.outcome == "refused" && cur.raw != sent.post.raw {
+            out.impl_failures.push(json!({"index": out.w.total, "class": {"refused_but_raw_state_changed": true, "protocol": "rfc6492"},
+                "what": format!("refused message changed the stored CertAuth / status JSON of the parent: {desc}")}));
+        }
+        probe_terms.push(format!("({}, mkMsg {cn} {pn} RList {} true, {}, {})", this_ua + 1, k.n, coq_parent(&sent.post), sent.outcome_term));
+        probe_recs.push(json!({"signed_by": label, "key": k.n, "registered_key_of_child_at_that_moment": reg(&cur), "outcome": sent.outcome, "served_as": sent.served_as}));
+        cur = sent.post;
+    }
+    let upd = format!("(mkUpd {} {})", coq_opt(id.map(|(k, _)| k.n)), coq_opt(res.map(|m| m as u64)));
+    let term = format!("(CUpdChild {} {cn} {upd} {ok} {} {})", coq_parent(&pre), coq_parent(&mid), coq_list(&probe_terms));
+    let shape = match (id.is_some(), res.is_some()) { (true, true) => "id+resources", (true, false) => "id-only", (false, true) => "resources-only", _ => "empty" };
+    let rec = json!({"protocol": "rfc6492", "stream": stream, "what": what, "parent": PAR, "child": child, "update_shape": shape,
+        "update_id_cert_key": id.map(|(k, _)| k.n), "update_resources_mask": res, "update_result": format!("{:?}", r.as_ref().map_err(|e| e.to_string())),
+        "registered_key_before": reg(&pre), "registered_key_after": reg(&mid), "entitlement_before": ent(&pre), "entitlement_after": ent(&mid),
+        "history_before": pre.hist, "history_after": mid.hist, "requests_after_the_update": probe_recs,
+        "outcome": if ok { "update-ok" } else { "update-error" }, "state_changed": pre != cur,
+        "class": {"path": "admin", "protocol": "rfc6492", "update_shape": shape}});
+    out.push(term, rec, stream, Some(format!("upd|{child}|{shape}|{:?}|{:?}|{}", id.map(|(k, _)| k.n), res, out.w.total)));
+    ok
+}
+
+/// One `create_publisher` (remote publisher `handle`, ID certificate `cert` with key `id`). Writes one `CAddPub` case.
+fn addpub_case(w: &mut World, out: &mut Out, handle: &str, id: &IdKey, cert: &IdCert, ver0: u64, stream: &str, what: &str) -> bool {
+    let pre = observe_repo(w, ver0);
+    let req = PublisherRequest::new(Base64::from_content(cert.to_bytes().as_ref()), publisher_handle(handle), None);
+    let r = w.sys.krill.repo_manager().create_publisher(req, &w.sys.actor);
+    let ok = r.is_ok();
+    let post = observe_repo(w, ver0);
+    let hn = w.it.handle(handle);
+    let term = format!("(CAddPub {} {hn} {} {ok} {})", coq_repo(&pre), id.n, coq_repo(&post));
+    // what the server says the publisher's base URI is (RFC 8183 repository response) - shown, never used as the expectation
+    let told = w.sys.krill.repo_manager().repository_response(&publisher_handle(handle), &w.sys.krill).ok().map(|r| r.sia_base().to_string());
+    let expected = if handle == "ta" { w.rsync_base.clone() } else { format!("{}{handle}/", w.rsync_base) };
+    let rec = json!({"protocol": "rfc8181", "stream": stream, "what": what, "publisher": handle, "id_key": id.n,
+        "result": format!("{:?}", r.as_ref().map(|_| ()).map_err(|e| e.to_string())), "base_uri_reported_by_server": told, "base_uri_derived_from_handle": expected,
+        "outcome": if ok { "publisher-added" } else { "add-error" }, "state_changed": pre != post,
+        "class": {"path": "admin", "protocol": "rfc8181"}});
+    out.push(term, rec, stream, Some(format!("addpub|{handle}|{}|{}", id.n, out.w.total)));
+    ok
+}
+
 /// True iff every URI of the message lies under the rsync base (so that it can be abstracted).
 fn abs_query_probe(base: &str, m: &publication::Message) -> bool {
     match m.clone().as_query() {
@@ -731,7 +805,7 @@ fn diagnose(args: &Args, dir: &std::path::Path) {
 
 /// What the scenario collects besides the cases.
 #[derive(Default)]
-struct Extra { flip_dist: BTreeMap<String, u64>, accepted_flips: Vec<Value>, ua: u64, local8181_probe: Value }
+struct Extra { flip_dist: BTreeMap<String, u64>, accepted_flips: Vec<Value>, ua: u64, local8181_probe: Value, child_updates: u64, near_miss_publishers: Vec<String>, ta_child_update_probe: Value }
 
 static LAST_PANIC: std::sync::Mutex<String> = std::sync::Mutex::new(String::new());
 
@@ -759,9 +833,9 @@ fn main() {
     let stats = json!({
         "scenario": "c12", "seed": args.seed, "tier": args.tier,
         "evaluations": out.w.total, "distinct_nontrivial": out.distinct.len(),
-        "rule": "one case per message fed to the real rfc6492 / rfc8181 (harness-built CMS; keys from the runtime's signer and from a second harness-owned KrillSigner): claimed sender x signing key {registered, another child's/publisher's, replaced identity, random} x recipient / URL x request kind, before and after identity updates on both sides and across an implicit unsuspend, deltas reaching into another publisher's base URI in every publisher state (no objects yet / with objects / withdrew everything); then single-bit flips of valid messages (quick: positions sampled per region signature / signed attributes / eContent / rest; thorough: every bit) - TESTING of decoder and signature check, not proof; the local shortcut (honest child, identity update of a local child, the F12a contact and the F12b namesake CA which must be refused). non-trivial = the claimed sender is a registered child / publisher, so that the key decision is exercised; distinct = distinct (protocol, sender, recipient, signing key, request, flipped bit)",
+        "rule": "one case per message fed to the real rfc6492 / rfc8181 (harness-built CMS; keys from the runtime's signer and from a second harness-owned KrillSigner): claimed sender x signing key {registered, another child's/publisher's, replaced identity, random} x recipient / URL x request kind, before and after identity updates on both sides and across an implicit unsuspend, deltas reaching into another publisher's base URI in every publisher state (no objects yet / with objects / withdrew everything); ca_child_update in every shape (ID certificate only, resources only, both in one request, both with refused resources, no-op, unknown child; remote children and a local CA) each followed by list requests under the previous and the new key - one case per update with its requests; every create_publisher (one case each); publishers with near-miss handles (tango, tata, ta2, taa, TA, t, alice / alice2) publishing into a sibling's directory, a directory whose name starts with their handle, and the base, in every publisher state, the allowed jail derived from the handle; then single-bit flips of valid messages (quick: positions sampled per region signature / signed attributes / eContent / rest; thorough: every bit) - TESTING of decoder and signature check, not proof; the local shortcut (honest child, identity update of a local child, the F12a contact and the F12b namesake CA which must be refused). non-trivial = the claimed sender is a registered child / publisher, so that the key decision is exercised; distinct = distinct (protocol, sender, recipient, signing key, request, flipped bit)",
         "stream_distribution": out.dist, "outcome_distribution": out.outcome_dist, "flip_region_distribution": ex.flip_dist,
-        "flips_not_refused": ex.accepted_flips, "local8181_probe": ex.local8181_probe, "messages": ex.ua, "local": do_local,
+        "flips_not_refused": ex.accepted_flips, "local8181_probe": ex.local8181_probe, "child_updates": ex.child_updates, "near_miss_publishers": ex.near_miss_publishers, "ta_child_update_probe": ex.ta_child_update_probe, "messages": ex.ua, "local": do_local,
         "samples": out.samples, "impl_failures": out.impl_failures, "evals": EVALS,
     });
     write_json(&args.out.join("stats.json"), &stats);
@@ -787,6 +861,7 @@ fn scenario(args: &Args, dir: &std::path::Path, out: &mut Out, ex: &mut Extra) {
     };
     let shadow = WalStore::create(sys.krill.storage(), PUBSERVER_CONTENT_NS).expect("shadow store");
     let mut w = World { sys, second, it: Interner::default(), shadow, ids: Vec::new(), repo_key: None, rsync_base: RSYNC_JAIL.to_string() };
+    assert_eq!(w.it.handle("ta"), 1, "the handle \"ta\" is number 1 (Coq ta_name)");
     // ---- the parent CA with atoms 0..7 and its children
     w.sys.add_ca(PAR).expect("parent ca");
     w.sys.add_parent(PAR, "ta", atoms_to_resources(0xFF)).expect("parent under ta");
@@ -814,6 +889,7 @@ fn scenario(args: &Args, dir: &std::path::Path, out: &mut Out, ex: &mut Extra) {
     let (rnd_id, _) = w.new_id(Which::Second, "random-key");
 
     let mut pre = observe_parent(&mut w);
+    let mut last_cert: BTreeMap<String, IdCert> = BTreeMap::new();
 
     // ---- stream A: structured provisioning messages, in rounds with identity updates in between
     let rounds = if thorough { 4 } else { 3 };
@@ -886,8 +962,11 @@ fn scenario(args: &Args, dir: &std::path::Path, out: &mut Out, ex: &mut Extra) {
         // ---- identity updates between the rounds
         if round == 0 {
             // child side, at the parent: c0 gets a new identity; the old key must be refused from now on
+            // (an update that carries ONLY the ID certificate, followed by a list request under the old and under the new key)
             let (nid, ncert) = w.new_id(Which::Second, "c0-id-2");
-            w.sys.krill.ca_manager().ca_child_update(&ca_handle(PAR), child_handle("c0"), UpdateChildRequest::id_cert(ncert), &w.sys.actor, &w.sys.krill).expect("child id update");
+            let probes = vec![("replaced-identity".to_string(), remotes[0].id.clone()), ("new-identity".to_string(), nid.clone()), ("other-child".to_string(), remotes[1].id.clone())];
+            assert!(update_case(&mut w, out, &mut ex.ua, "c0", Some((&nid, &ncert)), None, &probes, "A-upd", "ID certificate only"), "child id update");
+            last_cert.insert("c0".into(), ncert);
             let old = std::mem::replace(&mut remotes[0].id, nid);
             remotes[0].old_ids.push(old);
             // the parent's own identity: replies must carry the new key
@@ -904,7 +983,9 @@ fn scenario(args: &Args, dir: &std::path::Path, out: &mut Out, ex: &mut Extra) {
             let m = provisioning::Message::list(child_handle("loc").convert(), parent_handle(PAR).convert());
             if let Some(bytes) = sign6492(&w, m.clone(), &nid) { let _ = case6492(&mut w, out, &pre, &bytes, &m, &nid, None, "A-id", &mut ex.ua, json!({"signer_class": "new-identity-not-yet-registered", "kind": "list"})); }
             let idc = w.sys.ca("loc").unwrap().child_request().validate().expect("loc id cert");
-            w.sys.krill.ca_manager().ca_child_update(&ca_handle(PAR), child_handle("loc"), UpdateChildRequest::id_cert(idc), &w.sys.actor, &w.sys.krill).expect("loc id at parent");
+            // ONE update that carries the new ID certificate AND a resource set (the one the child already has)
+            let probes = vec![("replaced-identity".to_string(), remotes[li].id.clone()), ("new-identity".to_string(), nid.clone())];
+            assert!(update_case(&mut w, out, &mut ex.ua, "loc", Some((&nid, &idc)), Some(remotes[li].ent_mask), &probes, "A-upd", "ID certificate and (unchanged) resources in one request, child is a CA of this instance"), "loc id at parent");
             let old = std::mem::replace(&mut remotes[li].id, nid);
             remotes[li].old_ids.push(old);
             // suspend c1 (it holds certificates by now): a wrong-key message must leave it suspended,
@@ -930,18 +1011,76 @@ fn scenario(args: &Args, dir: &std::path::Path, out: &mut Out, ex: &mut Extra) {
         }
     }
 
+    // ---- stream A-upd: child updates in every shape (ID certificate only / resources only / both in ONE request / both with
+    // a resource part that is refused / no-op / unknown child), each followed by a list request signed with the key
+    // registered before and with the key of the ID certificate the update carried. The key that has to be registered
+    // afterwards is decided by the oracle from the request, not read back from the server.
+    {
+        let n_random = args.get_u64("updates", if thorough { 24 } else { 3 }) as usize;
+        // (child index, carries an ID certificate, resources, what)
+        let mut script: Vec<(usize, bool, Option<u32>, String)> = vec![
+            (0, false, Some(0x83), "resources only".into()),
+            (0, true, Some(0x03), "ID certificate and resources in one request".into()),
+            (1, true, Some(0x1C), "ID certificate and resources in one request".into()),
+            (0, true, Some(0x103), "ID certificate and resources in one request; the parent does not hold the resources, so that part is refused".into()),
+            (1, true, None, "ID certificate only".into()),
+            (1, false, Some(0x0C), "resources only".into()),
+            (0, false, Some(0), "resources only, empty set (refused)".into()),
+            (2, true, Some(remotes[2].ent_mask), "ID certificate and (unchanged) resources in one request, key in the runtime's signer".into()),
+        ];
+        for i in 0..n_random {
+            let ci = rng.below(2) as usize;
+            let with_id = rng.chance(70);
+            let res = if !with_id || rng.chance(70) { Some(if rng.chance(15) { 0x100 | rng.below(256) as u32 } else { 1 + rng.below(255) as u32 }) } else { None };
+            script.push((ci, with_id, res, format!("random update {i}")));
+        }
+        script.push((0, false, Some(0x03), "resources only (back to the original entitlement)".into()));
+        for (ci, with_id, res, what) in script {
+            let h = remotes[ci].handle.clone();
+            let which = remotes[ci].id.which;
+            let new = if with_id { Some(w.new_id(which, &format!("{h}-id-u{}", out.w.total))) } else { None };
+            let mut probes = vec![("registered-before-the-update".to_string(), remotes[ci].id.clone())];
+            if let Some((k, _)) = &new { probes.push(("key-of-the-new-id-certificate".to_string(), k.clone())); }
+            if let Some(o) = remotes[ci].old_ids.last() { probes.push(("replaced-earlier".to_string(), o.clone())); }
+            let ok = update_case(&mut w, out, &mut ex.ua, &h, new.as_ref().map(|(k, c)| (k, c)), res, &probes, "A-upd", &what);
+            ex.child_updates += 1;
+            // bookkeeping for the later streams follows what the server shows (the verdict is the oracle's, not this)
+            let now = observe_parent(&mut w);
+            let hn = w.it.handle(&h);
+            if let Some((_, c)) = now.children.iter().find(|(x, _)| *x == hn) {
+                if let Some((k, cert)) = new { if c.id == k.n { let old = std::mem::replace(&mut remotes[ci].id, k); remotes[ci].old_ids.push(old); last_cert.insert(h.clone(), cert); } }
+                remotes[ci].ent_mask = c.ent as u32;
+            }
+            let _ = ok;
+        }
+        // no-op: the ID certificate and the resources the child already has
+        if let Some(cert) = last_cert.get("c0").cloned() {
+            let k = remotes[0].id.clone();
+            let probes = vec![("registered".to_string(), k.clone()), ("replaced-earlier".to_string(), remotes[0].old_ids.last().cloned().unwrap_or(rnd_id.clone()))];
+            update_case(&mut w, out, &mut ex.ua, "c0", Some((&k, &cert)), Some(remotes[0].ent_mask), &probes, "A-upd", "the ID certificate and the resources the child already has (no-op)");
+            ex.child_updates += 1;
+        }
+        // a child that does not exist
+        let (gid, gcert) = w.new_id(Which::Second, "ghost-id");
+        update_case(&mut w, out, &mut ex.ua, "ghost", Some((&gid, &gcert)), Some(0x01), &[("key-of-the-new-id-certificate".to_string(), gid.clone())], "A-upd", "unknown child");
+        ex.child_updates += 1;
+    }
+
     // ---- stream B: publication
     let repo_resp = w.sys.krill.repo_manager().repository_response(&publisher_handle(PAR), &w.sys.krill).expect("repository response");
     w.repo_key = Some(repo_resp.validate().expect("repo id cert").public_key().clone());
     struct Pubr { handle: String, id: IdKey, old_ids: Vec<IdKey> }
     let mut pubs: Vec<Pubr> = Vec::new();
+    let ver0 = w.shadow.get_latest(&MyHandle::from_str("0").unwrap()).expect("content").revision();
     for (h, which) in [("p0", Which::Second), ("p1", Which::Second), ("p2", Which::Runtime)] {
         let (id, cert) = w.new_id(which, &format!("{h}-id"));
-        let req = PublisherRequest::new(Base64::from_content(cert.to_bytes().as_ref()), publisher_handle(h), None);
-        w.sys.krill.repo_manager().create_publisher(req, &w.sys.actor).expect("create publisher");
+        assert!(addpub_case(&mut w, out, h, &id, &cert, ver0, "B-add", "a remote publisher is added"), "create publisher");
         pubs.push(Pubr { handle: h.into(), id, old_ids: Vec::new() });
     }
-    let ver0 = w.shadow.get_latest(&MyHandle::from_str("0").unwrap()).expect("content").revision();
+    {   // a handle that is taken: refused, nothing changes
+        let (id, cert) = w.new_id(Which::Second, "p1-id-duplicate");
+        addpub_case(&mut w, out, "p1", &id, &cert, ver0, "B-add", "a publisher handle that is taken");
+    }
     let mut rpre = observe_repo(&mut w, ver0);
     let obj_uri = |h: &str, name: &str| uri::Rsync::from_str(&format!("{RSYNC_JAIL}{h}/{name}")).unwrap();
     let content = |s: &str| Base64::from_content(s.as_bytes());
@@ -1022,11 +1161,70 @@ fn scenario(args: &Args, dir: &std::path::Path, out: &mut Out, ex: &mut Extra) {
             // publisher identity change = remove + add with a new ID certificate
             w.sys.krill.repo_manager().remove_publisher(publisher_handle("p0"), &w.sys.actor, &w.sys.krill).expect("remove p0");
             let (nid, ncert) = w.new_id(Which::Second, "p0-id-2");
-            let req = PublisherRequest::new(Base64::from_content(ncert.to_bytes().as_ref()), publisher_handle("p0"), None);
-            w.sys.krill.repo_manager().create_publisher(req, &w.sys.actor).expect("re-add p0");
+            assert!(addpub_case(&mut w, out, "p0", &nid, &ncert, ver0, "B-add", "publisher identity change: removed and added again with a new ID certificate"), "re-add p0");
             let old = std::mem::replace(&mut pubs[0].id, nid);
             pubs[0].old_ids.push(old);
             rpre = observe_repo(&mut w, ver0);
+        }
+    }
+
+    // ---- stream B-near: publishers whose handles are near-misses of special names ("ta" is the only handle whose jail is the
+    // rsync base itself) or string prefixes of one another, reaching outside `<base><handle>/` - into a sibling's directory,
+    // into the directory whose name merely starts with their own, into the parent directory (the base) - in every publisher
+    // state. The allowed jail is derived from the HANDLE by the oracle (`jail_of`), never from the server's answer.
+    {
+        let names: [(&str, &str); 8] = [("tango", "alice"), ("tata", "tango"), ("ta2", "p1"), ("taa", "alice2"), ("TA", "alice"), ("t", "tango"), ("alice", "alice2"), ("alice2", "alice")];
+        let mut near: Vec<(String, String, IdKey)> = Vec::new();
+        for (h, victim) in names {
+            let (id, cert) = w.new_id(Which::Second, &format!("{h}-id"));
+            if addpub_case(&mut w, out, h, &id, &cert, ver0, "B-near-add", "a publisher whose handle is a near-miss of a special name or a prefix of another handle is added") {
+                near.push((h.to_string(), victim.to_string(), id));
+                ex.near_miss_publishers.push(h.to_string());
+            }
+        }
+        rpre = observe_repo(&mut w, ver0);
+        let base_uri = |name: &str| uri::Rsync::from_str(&format!("{RSYNC_JAIL}{name}")).unwrap();
+        let pubd = |u: uri::Rsync, c: &str| { let mut d = PublishDelta::empty(); d.add_publish(Publish::new(None, u, content(c))); publication::Message::delta(d) };
+        for phase in ["no-objects-yet", "with-objects", "withdrew-everything"] {
+            for (me, victim, id) in &near {
+                let theirs = content(&format!("{victim}-own-v1"));
+                let mut msgs: Vec<publication::Message> = Vec::new();
+                if phase == "withdrew-everything" {
+                    let mut d = PublishDelta::empty();
+                    if let Ok(l) = w.sys.krill.repo_manager().list(&publisher_handle(me)) { for el in l.elements() { d.add_withdraw(Withdraw::new(None, el.uri().clone(), *el.hash())); } }
+                    msgs.push(publication::Message::delta(d));
+                }
+                // outside the own directory: a sibling's directory, a directory whose name starts with the own handle, the base
+                msgs.push(pubd(obj_uri(victim, &format!("intruder-{me}-{phase}.cer")), "intruder"));
+                if phase == "no-objects-yet" { msgs.push(pubd(obj_uri(&format!("{me}2"), &format!("near-{me}-{phase}.cer")), "intruder")); }
+                msgs.push(pubd(base_uri(&format!("at-base-{me}-{phase}.cer")), "intruder"));
+                if phase == "with-objects" {
+                    let mut u = PublishDelta::empty(); u.add_update(Update::new(None, obj_uri(victim, "own.cer"), content("replaced by a stranger"), theirs.to_hash()));
+                    msgs.push(publication::Message::delta(u));
+                    let mut wd = PublishDelta::empty(); wd.add_withdraw(Withdraw::new(None, obj_uri(victim, "own.cer"), theirs.to_hash()));
+                    msgs.push(publication::Message::delta(wd));
+                    // one delta with an element inside and an element outside the own directory
+                    let mut d = PublishDelta::empty();
+                    d.add_publish(Publish::new(None, obj_uri(me, "second.cer"), content(&format!("{me}-second"))));
+                    d.add_publish(Publish::new(None, obj_uri(victim, &format!("mixed-{me}.cer")), content("intruder")));
+                    msgs.push(publication::Message::delta(d));
+                }
+                // inside the own directory
+                if phase == "no-objects-yet" { msgs.push(pubd(obj_uri(me, "own.cer"), &format!("{me}-own-v1"))); }
+                let batch: Vec<(publication::Message, IdKey)> = msgs.into_iter().map(|m| (m, id.clone())).collect();
+                let signed = par_sign8181(&w, &batch);
+                for ((m, sk), bytes) in batch.iter().zip(signed) {
+                    let Some(bytes) = bytes else { continue };
+                    rpre = case8181(&mut w, out, &rpre, me, &bytes, m, sk, None, &format!("B-near-{phase}"), ver0);
+                }
+            }
+        }
+        // a near-miss publisher's key posted to the URL of the trust anchor's publisher and of a handle that does not exist
+        if let Some((me, _, id)) = near.first() {
+            let m = pubd(base_uri(&format!("as-ta-{me}.cer")), "intruder");
+            for url in ["ta", "tang"] {
+                if let Some(bytes) = sign8181(&w, m.clone(), id) { rpre = case8181(&mut w, out, &rpre, url, &bytes, &m, id, None, "B-near-url", ver0); }
+            }
         }
     }
 
@@ -1190,6 +1388,27 @@ fn scenario(args: &Args, dir: &std::path::Path, out: &mut Out, ex: &mut Extra) {
         ta_sync(&mut w, out, "tchild", "tchild", "honest child of the TA, sync 1 (its certificate request is queued)");
         w.sys.sync_ta().expect("proxy-signer exchange");
         ta_sync(&mut w, out, "tchild", "tchild", "honest child of the TA, sync 2 (after the proxy-signer exchange: the waiting response is handed out)");
+        // the administrative child update addressed to the trust anchor: the TA proxy has no such command (children of the TA are
+        // added, never updated); whatever it answers, the key registered for `tchild` decides the next exchange
+        {
+            let (nid, ncert) = w.new_id(Which::Second, "tchild-id-update-probe");
+            let before = observe_ta(&mut w);
+            let req = UpdateChildRequest { id_cert: Some(ncert), resources: Some(atoms_to_resources(0x300)), suspend: None, resource_class_name_mapping: None };
+            let r = w.sys.krill.ca_manager().ca_child_update(&ca_handle("ta"), child_handle("tchild"), req, &w.sys.actor, &w.sys.krill);
+            let after = observe_ta(&mut w);
+            let tn = w.it.handle("tchild");
+            let reg = |t: &ATa| t.children.iter().find(|c| c.0 == tn).map(|c| c.1.id);
+            ex.ta_child_update_probe = json!({"result": format!("{:?}", r.as_ref().map_err(|e| e.to_string())), "registered_key_before": reg(&before), "registered_key_after": reg(&after), "key_of_the_update": nid.n});
+            if r.is_ok() && reg(&after) != Some(nid.n) {
+                out.impl_failures.push(json!({"index": out.w.total, "class": {"update_ok_but_key_not_replaced": true, "protocol": "rfc6492", "path": "ta-proxy"},
+                    "what": "ca_child_update for a child of the trust anchor returned Ok but the registered ID key is not the key of the ID certificate it carried"}));
+            }
+            if r.is_err() && before.raw != after.raw {
+                out.impl_failures.push(json!({"index": out.w.total, "class": {"refused_but_raw_state_changed": true, "protocol": "rfc6492", "path": "ta-proxy"},
+                    "what": "ca_child_update for a child of the trust anchor returned an error but changed the TA proxy"}));
+            }
+            ta_sync(&mut w, out, "tchild", "tchild", "honest child of the TA after a child update was addressed to the TA");
+        }
         // mallory's administrator stores the TA's parent response for `tchild`: must be refused, nothing queued in tchild's name
         let resp = w.sys.krill.ca_manager().ca_parent_response(&ca_handle("ta"), child_handle("tchild"), w.sys.krill.service_uri()).expect("parent response of the TA for tchild");
         w.sys.krill.ca_manager().ca_parent_add_or_update(ca_handle("mallory"), ParentCaReq { handle: parent_handle("ta"), response: resp }, &w.sys.actor, &w.sys.krill).expect("mallory stores a TA contact naming tchild");
